@@ -1,1 +1,13 @@
 pub mod c34;
+
+/// Child-process entry for crash-injection checks (`dverif __child <module> <spec-file>`).
+/// The child executes the spec and may abort() at a generated crash point; the parent judges
+/// the files left behind.
+pub fn child_dispatch(module: &str, _spec_path: &str) -> i32 {
+    match module {
+        _ => {
+            eprintln!("unknown child module {module}");
+            2
+        }
+    }
+}
